@@ -254,7 +254,17 @@ pub fn run(opts: &Opts) -> Report {
         }
     }
     // ---- clock-dependent calls are never frozen
-    for src in ["now()", "timestamp()", "[now()]", "f'{now()}'", "now() + duration(1)", "[1].map(v, now())[0]", "timestamp() == timestamp(0)", "{'t': now()}.t", "true ? now() : timestamp(0)", "string(now())", "(now() > timestamp(0)) ? now() : now()"] {
+    // (source, is the result fine-grained enough to differ after a few milliseconds)
+    let clock_srcs: [(&str, bool); 24] = [
+        ("now()", true), ("timestamp()", true), ("[now()]", true), ("f'{now()}'", true), ("now() + duration(1)", true), ("[1].map(v, now())[0]", true),
+        ("timestamp() == timestamp(0)", false), ("{'t': now()}.t", true), ("true ? now() : timestamp(0)", true), ("string(now())", true), ("(now() > timestamp(0)) ? now() : now()", true),
+        // a clock call nested inside the arguments of an otherwise closed call
+        ("int(timestamp())", false), ("string(timestamp())", true), ("int(now())", false), ("size([now()])", false), ("timestamp(timestamp())", true), ("max(timestamp(), timestamp(0))", true),
+        ("[timestamp()].map(v, v)[0]", true), ("f'{timestamp()}'", true), ("timestamp().getSeconds()", false), ("string(int(timestamp()))", false), ("bool(timestamp())", false),
+        ("min(now(), now())", true), ("[now(), timestamp()].size()", false),
+    ];
+    for (src, fine) in clock_srcs.iter() {
+        let src = *src;
         rep.count(Some(src));
         rep.bump("clock");
         match compile(src) {
@@ -269,7 +279,7 @@ pub fn run(opts: &Opts) -> Report {
                 let a = run(&p);
                 std::thread::sleep(std::time::Duration::from_millis(3));
                 let b = run(&p);
-                if src != "timestamp() == timestamp(0)" && a == b {
+                if *fine && a == b {
                     rep.oracle_fail(src, &format!("{} then {}", a, b), "two different instants", "the clock was not read at every execution");
                 }
                 queue_bytecode(&mut pending, src);
